@@ -1,5 +1,51 @@
-"""Apalache obligations (symbolic, all capacities up to 2^64-1). Filled in with WordArith / Shape."""
+"""Apalache obligations: symbolic (SMT) checks for ALL capacities up to 2^64-1 of the integer-only modules
+spec/WordArith.tla (add_mod lemma) and spec/Shape.tla (scalar inductive step). They depend only on the
+specification, so results are cached by spec hash; sanity mutants must be refuted."""
+import os, re, json, time, shutil, subprocess
+import concurrent.futures as cf
+from . import core
+from .core import OUT, SPEC
+
+OBLIGATIONS = [
+    # name, module, extra args, expected outcome
+    ('wordarith_lemma', 'WordArith.tla', ['--inv=Lemma', '--length=0'], 'NoError'),
+    ('wordarith_mutant_no_plus_one', 'WordArith.tla', ['--inv=MutantNoPlusOne', '--length=0'], 'Error'),
+    ('wordarith_mutant_no_overflow', 'WordArith.tla', ['--inv=MutantNoOverflow', '--length=0'], 'Error'),
+    ('shape_inductive_step', 'Shape.tla', ['--init=IndInit', '--inv=Inv', '--length=1'], 'NoError'),
+    ('shape_mutant_push_front', 'Shape.tla', ['--init=IndInit', '--next=NextBadPushFront', '--inv=Inv', '--length=1'], 'Error'),
+    ('shape_mutant_two_fill_iterations', 'Shape.tla', ['--init=IndInit', '--next=NextBadFill', '--inv=Inv', '--length=1'], 'Error'),
+]
+
+
+def run_one(ob):
+    name, mod, args, expect = ob
+    key = core.sha(core.spec_hash([mod]), name, ' '.join(args))
+    cdir = core.ensure(os.path.join(OUT, 'cache'))
+    cpath = os.path.join(cdir, 'apa_%s_%s.json' % (name, key))
+    if os.path.exists(cpath) and os.environ.get('VERIF_NOCACHE') != '1':
+        r = json.load(open(cpath))
+        r['cached'] = True
+        return r
+    odir = os.path.join(OUT, 'work', 'apa_%s_%d' % (name, os.getpid()))
+    t0 = time.time()
+    try:
+        p = subprocess.run(['apalache-mc', 'check'] + args + ['--out-dir=' + odir, os.path.join(SPEC, mod)],
+                           cwd=core.ensure(os.path.join(OUT, 'work')), stdout=subprocess.PIPE, stderr=subprocess.STDOUT, timeout=900)
+        out = p.stdout.decode('utf-8', 'replace')
+    except subprocess.TimeoutExpired:
+        out = 'TIMEOUT'
+    shutil.rmtree(odir, ignore_errors=True)
+    m = re.search(r'The outcome is: (\w+)', out)
+    outcome = m.group(1) if m else 'Unknown'
+    r = {'name': name, 'module': mod, 'cmd': 'apalache-mc check ' + ' '.join(args) + ' ' + mod, 'expected': expect, 'outcome': outcome,
+         'ok': outcome == expect, 'wall_s': round(time.time() - t0, 1), 'cached': False}
+    if not r['ok']:
+        r['tail'] = out[-1500:]
+    else:
+        json.dump(r, open(cpath, 'w'))
+    return r
 
 
 def run_all(tier):
-    return []
+    with cf.ThreadPoolExecutor(max_workers=3) as ex:
+        return list(ex.map(run_one, OBLIGATIONS))
